@@ -186,6 +186,11 @@ def h_roundtrip(ctx, chain, typ, var):
         ctx.fail('frame with another chain\'s magic is rejected')
     except ValueError:
         pass
+    # history: the same message (and a fresh one of the same type) framed after the chain switch carries the new chain's magic
+    ctx.check(m.to_bytes() == RM.frame(ctx, other, typ, payload), 'frame == reference framing', detail='same object after SelectParams(%s)' % other)
+    ctx.check(back.to_bytes() == RM.frame(ctx, other, typ, payload), 'frame == reference framing', detail='parsed object after SelectParams(%s)' % other)
+    ctx.select_chain(chain)
+    ctx.check(m.to_bytes() == ref, 'frame == reference framing', detail='after switching back')
     ctx.select_chain('mainnet')
 
 
